@@ -116,8 +116,60 @@ class Gen:
     def scope(self, sc):
         return {"ints": dict(sc["ints"]), "arrs": dict(sc["arrs"]), "structs": dict(sc["structs"]), "ptrs": dict(sc["ptrs"]), "ro": set(sc["ro"])}
 
+    def special(self, sc):
+        """VLAs, whole-struct copies, struct-by-value calls"""
+        r = self.r
+        k = r.random()
+        if k < 0.4:
+            n, a, i, t, ln = self.fresh("n"), self.fresh("vla"), self.fresh("i"), r.choice(ALL), r.randrange(1, 7)
+            mul = self.lit_for(r.choice(UINTS), small=True)
+            out = [s_decl(n, T("uint"), i_e(lit("uint", ln))), s_vla(a, T(t), var(n)),
+                   s_for(s_decl(i, T("int"), i_e(lit("int", 0))), bin_("<", var(i), lit("int", ln)), s_expr(incdec(var(i))),
+                         s_asg("=", idx(var(a), var(i)), bin_("+", bin_("*", cast(T("uint"), var(i)), mul), self.atom(sc)))),
+                   s_obs(sizeof_(var(a))), s_obs(idx(var(a), lit("int", r.randrange(ln))))]
+            sc["ints"][n] = "uint"
+            sc["ro"].add(n)
+            sc["arrs"][a] = (t, ln)
+            return out
+        if k < 0.55:
+            # automatic array with a (possibly partial) brace initialiser: run-time initialisation code
+            a, t, ln = self.fresh("la"), r.choice(ALL), r.randrange(1, 7)
+            out = [s_decl(a, A(T(t), ln), i_list([i_e(self.expr(sc, 2) if r.random() < 0.4 else self.lit_for(t)) for _ in range(r.randrange(1, ln + 1))]))]
+            out += [s_obs(idx(var(a), lit("int", j))) for j in range(ln)]
+            sc["arrs"][a] = (t, ln)
+            return out
+        if not self.structs:
+            return []
+        if k < 0.75:
+            # automatic struct with a brace initialiser (bit-fields share storage units with their neighbours)
+            sid = r.randrange(1, len(self.structs) + 1)
+            fs = self.structs[sid - 1]["fields"]
+            t = self.fresh("ls")
+            out = [s_decl(t, St(sid), i_list([i_e(self.expr(sc, 2) if r.random() < 0.3 else self.lit_for(f["t"]["n"], small=r.random() < 0.5))
+                                              for f in fs[:r.randrange(1, len(fs) + 1)]]))]
+            out += [s_obs(mem(var(t), f["n"])) for f in fs]
+            sc["structs"][t] = sid
+            return out
+        if not sc["structs"]:
+            return []
+        sname, sid = r.choice(list(sc["structs"].items()))
+        f = r.choice(self.structs[sid - 1]["fields"])
+        if k < 0.9:
+            t = self.fresh("t")
+            out = [s_decl(t, St(sid), i_e(var(sname))), s_asg("=", mem(var(t), f["n"]), self.expr(sc)), s_obs(mem(var(t), f["n"]))]
+            if r.random() < 0.6:
+                out.append(s_asg("=", var(sname), var(t)))
+            sc["structs"][t] = sid
+            return out
+        fs = [g for g in self.funcs if g.get("_sid") == sid]
+        if fs:
+            return [s_call(fs[0]["name"], [var(sname), self.expr(sc, 2)], var(sname))]
+        return []
+
     def stmt(self, sc, depth, inloop):
         r = self.r
+        if depth <= 1 and r.random() < 0.2:
+            return self.special(sc)
         c = r.random()
         if c < 0.14:
             n, t = self.fresh(), r.choice(ALL)
@@ -204,7 +256,9 @@ class Gen:
                 body += self.stmts(self.scope(sc), r.randrange(1, 3), depth + 1, inloop)
             return [s_switch(sel, body)]
         if self.funcs:
-            f = r.choice(self.funcs)
+            f = r.choice([g for g in self.funcs if "_sid" not in g] or [None])
+            if f is None:
+                return [s_obs(self.expr(sc))]
             lv = self.int_lvalue(sc)
             args = [self.expr(sc, 1) for _ in f["params"]]
             return [s_call(f["name"], args, lv[0] if lv and r.random() < 0.85 else None)]
@@ -253,6 +307,17 @@ class Gen:
             rt = r.choice(ALL)
             body = self.stmts(sc, r.randrange(1, 4), 1) + [s_ret(self.expr(sc))]
             self.funcs.append(func(name, T(rt), params, s_block(body)))
+        for sid in range(1, len(self.structs) + 1):
+            if r.random() < 0.7:
+                name, a, k = self.fresh("fs"), self.fresh("q"), self.fresh("q")
+                fld = r.choice(self.structs[sid - 1]["fields"])
+                sc = self.scope(g)
+                sc["ints"][k] = "int"
+                sc["structs"][a] = sid
+                body = [s_asg(r.choice(["^=", "=", "|="]), mem(var(a), fld["n"]), self.expr(sc, 2)), s_obs(mem(var(a), fld["n"])), s_ret(var(a))]
+                fn = func(name, St(sid), [(a, St(sid)), (k, T("int"))], s_block(body))
+                fn["_sid"] = sid
+                self.funcs.append(fn)
         sc = self.scope(g)
         body = self.stmts(sc, r.randrange(6, 14), 0)
         for n in list(sc["ints"])[:8]:
@@ -266,15 +331,56 @@ class Gen:
         return program(self.structs, self.globals, self.funcs + [func("main", T("int"), [], s_block(body))], charsigned)
 
 
+def init_program(rng, charsigned):
+    """Programs made of automatic aggregates with brace initialisers (run-time initialisation code): structs dense in
+    bit-fields of mixed base types (storage units overlapping narrower neighbours), arrays of them, partial lists."""
+    g = Gen(rng)
+    structs, body = [], []
+    for si in range(rng.randrange(2, 5)):
+        fields = []
+        for j in range(rng.randrange(2, 7)):
+            t = rng.choice([x for x in ALL if x != "bool"] + ["bool"])
+            bw = 0
+            if t != "bool" and rng.random() < 0.65:
+                bw = min(W[t], rng.choice([1, 2, 3, 4, 5, 7, 8, 9, 12, 13, 15, 16, 17, 20, 24, 31, 32, 33, 40, 63]))
+            fields.append(("f%d" % j, T(t), bw))
+        structs.append(struct("I%d" % (si + 1), fields))
+    g.structs = structs
+    for k in range(rng.randrange(4, 9)):
+        sid = rng.randrange(1, len(structs) + 1)
+        fs = structs[sid - 1]["fields"]
+        n = g.fresh("o")
+        def nz(f):
+            e = g.lit_for(f["t"]["n"], small=rng.random() < 0.4)
+            return e
+        if rng.random() < 0.25:
+            ln = rng.randrange(1, 4)
+            body.append(s_decl(n, A(St(sid), ln), i_list([i_list([i_e(nz(f)) for f in fs[:rng.randrange(1, len(fs) + 1)]]) for _ in range(rng.randrange(1, ln + 1))])))
+            for j in range(ln):
+                body += [s_obs(mem(idx(var(n), lit("int", j)), f["n"])) for f in fs]
+        else:
+            body.append(s_decl(n, St(sid), i_list([i_e(nz(f)) for f in fs[:rng.randrange(1, len(fs) + 1)]])))
+            body += [s_obs(mem(var(n), f["n"])) for f in fs]
+            if rng.random() < 0.5:
+                f = rng.choice(fs)
+                body += [s_asg("=", mem(var(n), f["n"]), nz(f))] + [s_obs(mem(var(n), x["n"])) for x in fs]
+    body.append(s_ret(lit("int", 0)))
+    return program(structs, [], [func("main", T("int"), [], s_block(body))], charsigned)
+
+
 def random_programs(ctx, objdir, runtime):
     import props.c01 as c01
     n = 48 if ctx.quick else 600
+    n_init = 24 if ctx.quick else 300
     n_refine = 12 if ctx.quick else 80
     progs = []
-    for i in range(n):
+    for i in range(n + n_init):
         t = ["x86_64-sysv", "aarch64", "riscv64"][i % 3] if not ctx.quick else ["x86_64-sysv", "aarch64"][i % 2]
         rng = random.Random(ctx.seed * 100003 + i)
-        progs.append((Gen(rng).program(c01.charsigned_of(t)), t))
+        if i >= n:
+            progs.append((init_program(rng, c01.charsigned_of(t)), t))
+        else:
+            progs.append((Gen(rng).program(c01.charsigned_of(t)), t))
     # compile all with the real compiler
     def comp(pt):
         p, t = pt
@@ -351,7 +457,7 @@ def random_programs(ctx, objdir, runtime):
         ctx.validated(1)
         vlib.pool_add("C01", src, t)
     # flow C: Refine on a sample (CSem and QbeMachine both inside TLC), binding il2c to QbeMachine
-    sample = defined[:n_refine]
+    sample = defined[:n_refine - 3] + defined[-3:]
     if sample:
         c2, q2 = ctx.path("c_ref.ndjson"), ctx.path("q_ref.ndjson")
         with open(c2, "w") as fc, open(q2, "w") as fq:
